@@ -203,6 +203,10 @@ def oneshot_item(item):
             out["bler_none"] = blers_none
             if n % BLOCK == 0:
                 out["bench_bler"] = StandardMetrics.block_error_rate(X.reshape(-1), Y.reshape(-1), BLOCK)
+        elif len(shape) > 1:
+            # complex symbols: a block of block_size *symbols* is in error when any of its symbols differs
+            per_row = n // shape[0]
+            out["cblers"] = {bs: val_of(BlockErrorRate(block_size=bs)(X, Y)) for bs in range(1, per_row + 1) if per_row % bs == 0}
         return out
     paths = sym_paths(run, (), tl, max_paths=3000)
     agg = {}
@@ -247,6 +251,19 @@ def oneshot_item(item):
                 bad = z3.Or(S.zbool(S.gt(R["ber"], S.add(v, 2.0 ** -20))), S.zbool(S.gt(v, 1)), S.zbool(S.gt(v, S.add(S.mul(R["ber"], bs), 2.0 ** -20))))
                 st, model = decide(ctx, bad)
                 note("BER<=BLER<=min(1,B*BER)", st, f"ordering BER <= BLER <= min(1, B*BER) fails for block_size={bs}", model)
+        if cplx and "cblers" in R:
+            sd = [S.bor(diff[i], diff[n + i]) for i in range(n)]       # symbol i differs in its real or imaginary part
+            for bs, v in R["cblers"].items():
+                nb = n // bs
+                be = 0
+                for b in range(nb):
+                    a = False
+                    for d in sd[b * bs:(b + 1) * bs]:
+                        a = S.bor(a, d)
+                    be = S.add(be, a)
+                st, model = decide(ctx, neq_ratio(v, be, nb))
+                note("BLER=blocks-in-error/blocks", st, f"complex input: BLER(block_size={bs}) differs from (#blocks of {bs} symbols with a difference)/#blocks", model)
+        if not cplx:
             if "bench_bler" in R:
                 nb = N // BLOCK
                 be = 0
@@ -268,14 +285,15 @@ def oneshot_item(item):
         else:
             rec(clause, st, sample=dict(query=clause, shape=list(shape), paths=len(paths)))
     # rejection of non-divisor block sizes (ground, shapes concrete)
-    if not cplx and len(shape) > 1:
+    if len(shape) > 1:
         per_row = n // shape[0]
         bad = []
+        zdt = torch.complex64 if cplx else torch.float32
         with _disable_current_modes():
             for bs in range(2, per_row + 2):
                 if per_row % bs:
                     try:
-                        BlockErrorRate(block_size=bs)(torch.zeros(shape), torch.zeros(shape))
+                        BlockErrorRate(block_size=bs)(torch.zeros(shape, dtype=zdt), torch.zeros(shape, dtype=zdt))
                         bad.append(bs)
                     except Exception:
                         pass
@@ -305,12 +323,18 @@ def replay_oneshot(clause, shape, cplx, w):
             return (ber == 0) != (int(d.sum()) == 0)
         if clause == "benchmark BER = count/N":
             return abs(StandardMetrics.bit_error_rate(X.reshape(-1), Y.reshape(-1)) - int(d.sum()) / N) > 2.0 ** -20
+        if cplx:
+            d = (X != Y).flatten()          # BLER counts complex symbols
+            N = d.numel()
         per_row = N // shape[0]
         for bs in range(1, per_row + 1):
             if per_row % bs:
                 continue
             blocks = d.reshape(-1, bs).any(dim=1)
-            v = float(BlockErrorRate(block_size=bs)(X, Y))
+            try:
+                v = float(BlockErrorRate(block_size=bs)(X, Y))
+            except Exception:  # noqa: BLE001
+                return True
             e = int(blocks.sum()) / blocks.numel()
             if clause.startswith("BLER=") and abs(v - e) > 2.0 ** -20:
                 return True
@@ -368,7 +392,7 @@ def main():
             items.append(dict(type="history", kind=kind, seqs=seqs[i:i + chunk], config=f"{kind} histories {i}..{i + chunk}"))
     for shape in ((4,), (6,), (2, 3), (2, 2, 2)) + (((2, 4), (8,)) if TIER == "thorough" else ()):
         items.append(dict(type="oneshot", shape=shape, config=f"oneshot {shape}"))
-    for shape in ((3,), (2, 2)):
+    for shape in ((3,), (2, 2), (1, 4)) + (((2, 3),) if TIER == "thorough" else ()):
         items.append(dict(type="oneshot", shape=shape, complex=True, config=f"oneshot complex {shape}"))
     items.append(dict(selftest=True, config="selftest"))
     from kaira.metrics.signal import ber, bler
@@ -376,7 +400,7 @@ def main():
     ck.encoded(ber.BitErrorRate.forward, ber.BitErrorRate.update, ber.BitErrorRate.compute, ber.BitErrorRate.reset, bler.BlockErrorRate.forward, bler.BlockErrorRate.update,
                bler.BlockErrorRate.compute, bler.BlockErrorRate.reset, bler.BlockErrorRate._reshape_into_blocks, bm.StandardMetrics.bit_error_rate, bm.StandardMetrics.block_error_rate)
     ck.bound("histories", f"every sequence over {{update(b0), update(b1), update(b2), compute, reset}} up to length {L} (+ sampled length 6 in thorough), three symbolic batches of different sizes; history structure is a concrete enumeration (bound), all data symbolic")
-    ck.bound("one-shot", "<= 8 bits per tensor; shapes (4,), (6,), (2,3), (2,2,2) (+ (2,4), (8,)); every divisor block size; complex form (3,), (2,2)")
+    ck.bound("one-shot", "<= 8 bits per tensor; shapes (4,), (6,), (2,3), (2,2,2) (+ (2,4), (8,)); every divisor block size; complex form (3,), (2,2), (1,4) (+ (2,3)) incl. BLER over blocks of complex symbols")
     ck.stub("module counters (registered buffers) are wrapped as symbolic tensors before the run; float()/item() of a symbolic count case-splits over all feasible values")
     ck.assume("inputs are 0/1-valued tensors (the metrics threshold at 0.5 / compare |x-y| > 0)")
     ck.run_items(__name__, "work", items)
